@@ -145,7 +145,7 @@ def _floors(tier):
 
 
 FLOORS = {tier: _floors(tier) for tier in ("quick", "thorough")}
-TIMEOUT_S = {"quick": 1500, "thorough": 5400}
+TIMEOUT_S = {"quick": 3600, "thorough": 10800}
 EXTRA_COVERAGE = {
     "grid": {"n_steps_max": NMAX, "thinning_max": TMAX, "burn_in": "0..n-1", "exhaustive_within_bounds_per_model": True},
     "kernels": KERNELS_OF,
